@@ -51,27 +51,31 @@ class ContractMixin:
     def bind_call(self, c, args, kwargs, st, label):
         pos, vararg, kwonly, defaults, kwarg = self.callee_signature(c)
         env = {}
-        flat = []
-        star_tail = None
-        for a in args:
-            if isinstance(a, tuple) and a[0] == "*":
-                star_tail = a[1]
-                continue
-            if star_tail is not None:
-                raise Unsupported(f"{label}: positional after *args")
-            flat.append(a)
-        n = min(len(flat), len(pos))
-        for name, a in zip(pos, flat):
-            env[name] = a
-        rest = flat[n:]
         if vararg is not None:
-            parts = [Q.Unit(st, box(a, st)) for a in rest]
-            if star_tail is not None:
-                parts.append(as_seq(self.materialise(star_tail, st), st))
+            # positional parameters first, then everything else (plain and starred, in order) goes to *vararg
+            parts = []
+            npos = 0
+            for a in args:
+                starred = isinstance(a, tuple) and a[0] == "*"
+                if not starred and npos < len(pos) and not parts:
+                    env[pos[npos]] = a
+                    npos += 1
+                elif starred:
+                    parts.append(as_seq(self.materialise(a[1], st), st))
+                else:
+                    parts.append(Q.Unit(st, box(a, st)))
             t = Q.Concat(st, *parts)
             env[vararg] = Sym("seq", t, c.params.get(vararg) or Spec("seq", VAL, True))
-        elif rest or star_tail is not None:
-            raise Unsupported(f"{label}: too many positionals / star-args for contract binding")
+        else:
+            flat = []
+            for a in args:
+                if isinstance(a, tuple) and a[0] == "*":
+                    raise Unsupported(f"{label}: star-args for contract binding")
+                flat.append(a)
+            if len(flat) > len(pos):
+                raise Unsupported(f"{label}: too many positionals for contract binding")
+            for name, a in zip(pos, flat):
+                env[name] = a
         for k_, v in kwargs.items():
             if k_ == "**":
                 raise Unsupported(f"{label}: **kwargs at call")
@@ -210,6 +214,9 @@ class ContractMixin:
                 elif sname == "obj":
                     c = fresh(a.arg, O)
                     st.env[a.arg] = Sym("robj", c)
+                elif sname == "seq":
+                    c = fresh(a.arg, SeqV)
+                    st.env[a.arg] = Sym("seq", c, Spec("seq", VAL))
                 elif sname == "cls":
                     c = fresh(a.arg, K)
                     st.env[a.arg] = Sym("rcls", c)
@@ -244,6 +251,17 @@ class ContractMixin:
             for n in names:
                 self.note_class(n)
             return S_bool(z3.Or(*[isa(box(x, st), n) for n in names]))
+        if name == "call_result":
+            g = st.notes.get("ghost_appends") or {}
+            key = node.args[0].value
+            ev = g.get(key) or Sym("seq", Q.Empty(), Spec("seq", VAL))
+            k = as_int(self.eval(node.args[1], st), st)
+            return S_val(uf("rec:" + key, V, IntS, V)(Q.At(ev.t, k), k))
+        if name == "call_args":
+            g = st.notes.get("ghost_appends") or {}
+            ev = g.get(node.args[0].value) or Sym("seq", Q.Empty(), Spec("seq", VAL))
+            k = as_int(self.eval(node.args[1], st), st)
+            return Sym("seq", unS(Q.At(ev.t, k)), Spec("seq", VAL, True))
         if name == "final":
             # ghost: the value of a local variable of the kernel at the return point (None when unbound on this path)
             fe = st.notes.get("final_env") or {}
